@@ -18,7 +18,16 @@ pub fn ser(a: &dyn Aml) -> Vec<u8> {
 
 /// deterministic text of a given length (ISA strings, platform names)
 pub fn text_of(len: usize) -> String {
-    (0..len).map(|i| (b'a' + ((i * 7 + len) % 26) as u8) as char).collect()
+    // exactly `len` bytes; some lengths carry a two-byte character (the crate takes any &str, so
+    // characters and bytes must not be confused) at the front or at the end
+    let ascii = |n: usize| -> String { (0..n).map(|i| (b'a' + ((i * 7 + len) % 26) as u8) as char).collect() };
+    if len >= 2 && len % 5 == 3 {
+        format!("\u{e9}{}", ascii(len - 2))
+    } else if len >= 2 && len % 7 == 5 {
+        format!("{}\u{df}", ascii(len - 2))
+    } else {
+        ascii(len)
+    }
 }
 
 pub fn static_text(len: usize) -> &'static str {
@@ -749,7 +758,10 @@ pub fn apply_fadt(b: fadt::FADTBuilder, s: &FadtSet) -> fadt::FADTBuilder {
                 40 => b.x_dsdt = v.into(),
                 41 => b.hypervisor_vendor_identity = v.into(),
                 // the pub checksum field: whatever the caller leaves there, finalize() recomputes it
-                _ => b.checksum = v as u8,
+                42 => b.checksum = v as u8,
+                // the pub Length field of the header: a caller who overwrites it owns the consequences
+                // for C02, but the checksum must still cover everything that is emitted (C01)
+                _ => b.length = (v as u32).into(),
             }
             b
         }
